@@ -607,3 +607,115 @@ mutant("c12-connected-before-chain", "C12", "C12-D2", "server_socket.go",
 		s.id = previousSession.SID""")
 mutant("c12-use-prepends", "C12", "C12-D1", "middleware.go",
        "	n.middlewareFuncs = append(n.middlewareFuncs, f)", "	n.middlewareFuncs = append([]NspMiddlewareFunc{f}, n.middlewareFuncs...)")
+
+# ---------------------------------------------------------------- C07
+mutant("c07-no-resend-of-queued", "C07", "C07-D2", "engine.io/server_socket.go",
+       """	qp := old.QueuedPackets()
+	for _, p := range qp {
+		if p.Type != parser.PacketTypeNoop {
+			t.Send(p)
+		}
+	}""",
+       """	_ = old.QueuedPackets()""")
+mutant("c07-send-without-rlock", "C07", "C07-D1", "engine.io/server_socket.go",
+       """func (s *serverSocket) Send(packets ...*parser.Packet) {
+	s.transportMu.RLock()
+	defer s.transportMu.RUnlock()
+	s.transport.Send(packets...)""",
+       """func (s *serverSocket) Send(packets ...*parser.Packet) {
+	s.transport.Send(packets...)""")
+mutant("c07-timeout-closes-socket", "C07", "C07-D4", "engine.io/server.go",
+       """		case <-time.After(s.upgradeTimeout):
+			t.Close()
+			socket.onError(""",
+       """		case <-time.After(s.upgradeTimeout):
+			t.Close()
+			socket.Close()
+			socket.onError(""")
+mutant("c07-candidate-gets-close-callback", "C07", "C07-D3", "engine.io/client_socket.go",
+       """	c.Set(func(packets ...*parser.Packet) {
+		for _, packet := range packets {
+			onPacket(packet)
+		}
+	}, nil)
+
+	_, err := t.Handshake()""",
+       """	c.Set(func(packets ...*parser.Packet) {
+		for _, packet := range packets {
+			onPacket(packet)
+		}
+	}, s.onTransportClose)
+
+	_, err := t.Handshake()""")
+mutant("c07-upgrade-sent-after-unlock", "C07", "C07-D2", "engine.io/client_socket.go",
+       """	s.transportMu.Lock()
+	defer s.transportMu.Unlock()
+
+	old := s.transport
+	s.transport = t
+
+	old.Discard()
+
+	t.Send(p)""",
+       """	s.transportMu.Lock()
+	old := s.transport
+	s.transport = t
+	s.transportMu.Unlock()
+
+	old.Discard()
+
+	t.Send(p)""")
+mutant("c07-swap-lock-released-early", "C07", "C07-D2", "engine.io/server_socket.go",
+       """	s.transportMu.Lock()
+	defer s.transportMu.Unlock()
+
+	old := s.transport
+	s.transport = t
+	old.Discard()""",
+       """	s.transportMu.Lock()
+	old := s.transport
+	s.transport = t
+	s.transportMu.Unlock()
+	old.Discard()""")
+mutant("c07-superseded-close-not-ignored", "C07", "C07-D3", "engine.io/server_socket.go",
+       """		if s.TransportName() != name {
+			return
+		}
+""", "")
+mutant("c07-discard-no-noop", "C07", "C07-D5", "engine.io/transport/polling/server.go",
+       """		p, err := parser.NewPacket(parser.PacketTypeNoop, false, nil)
+		if err == nil {
+			go t.Send(p)
+		}
+	})
+}
+
+func (t *ServerTransport) close""",
+       """	})
+}
+
+func (t *ServerTransport) close""")
+mutant("c07-inflight-poll-dropped", "C07", "C07-D5", "engine.io/transport/polling/client.go",
+       """			t.callbacks.OnPacket(packets...)
+		}
+	}
+}""",
+       """			select {
+			case <-t.pollExit:
+				return
+			default:
+			}
+			t.callbacks.OnPacket(packets...)
+		}
+	}
+}""")
+mutant("c07-resend-includes-noop-only-message", "C07", "C07-D2", "engine.io/server_socket.go",
+       "		if p.Type != parser.PacketTypeNoop {\n			t.Send(p)", "		if p.Type == parser.PacketTypeMessage && !p.IsBinary {\n			t.Send(p)")
+mutant("c07-invalid-probe-closes-socket", "C07", "C07-D4", "engine.io/server.go",
+       """		default:
+			t.Close()
+			socket.onError(wrapInternalError(fmt.Errorf("upgrade failed: invalid packet received: packet type: %d", packet.Type)))""",
+       """		default:
+			t.Close()
+			socket.close(ReasonTransportError, nil)
+			socket.onError(wrapInternalError(fmt.Errorf("upgrade failed: invalid packet received: packet type: %d", packet.Type)))""")
